@@ -171,6 +171,19 @@ func catTokens(ts []tokens.Token) []byte {
 	return out
 }
 
+// scratch / scribble model a caller that keeps challenge, nonce and key id in buffers it
+// reuses as soon as the call has returned.
+func scratch(b []byte) []byte { return append(make([]byte, 0, len(b)+8), b...) }
+
+func scribble(bufs ...[]byte) {
+	for _, b := range bufs {
+		b = b[:cap(b)]
+		for i := range b {
+			b[i] = 0xEE
+		}
+	}
+}
+
 func buildFlow(p P) flow {
 	chal, nonce := inputOf(p)
 	oc, on := mc.Fill(p.Seed, "c11-unrelated-chal", 40), mc.Fill(p.Seed, "c11-unrelated-nonce", 32)
@@ -184,7 +197,10 @@ func buildFlow(p P) flow {
 		}
 		return flow{
 			create: func(b int) (made, error) {
-				st, err := c.CreateTokenRequestWithBlind(chal, nonce, w.KeyID, w.ClientPub(), bl[b])
+				// challenge and nonce live in caller buffers that are reused right after the call
+				ch, no, kid := scratch(chal), scratch(nonce), scratch(w.KeyID)
+				st, err := c.CreateTokenRequestWithBlind(ch, no, kid, w.ClientPub(), bl[b])
+				scribble(ch, no, kid)
 				if err != nil {
 					return made{}, err
 				}
@@ -211,7 +227,9 @@ func buildFlow(p P) flow {
 			rb[b] = rsaBlind(p.Seed, b, w.Key.N, fmt.Sprintf("k%d", p.Key))
 		}
 		mk := func(b, salt int) (made, error) {
-			st, err := c.CreateTokenRequestWithBlind(chal, nonce, w.KeyID, w.ClientPub(), rb[b], salts[salt])
+			ch, no, kid := scratch(chal), scratch(nonce), scratch(w.KeyID)
+			st, err := c.CreateTokenRequestWithBlind(ch, no, kid, w.ClientPub(), rb[b], salts[salt])
+			scribble(ch, no, kid)
 			if err != nil {
 				return made{}, err
 			}
@@ -253,7 +271,13 @@ func buildFlow(p P) flow {
 		}
 		return flow{
 			create: func(b int) (made, error) {
-				st, err := c.CreateTokenRequestWithBlinds(chal, nonces, w.KeyID, w.ClientPub(), bv[b])
+				ch, kid := scratch(chal), scratch(w.KeyID)
+				ns := make([][]byte, len(nonces))
+				for i := range nonces {
+					ns[i] = scratch(nonces[i])
+				}
+				st, err := c.CreateTokenRequestWithBlinds(ch, ns, kid, w.ClientPub(), bv[b])
+				scribble(append([][]byte{ch, kid}, ns...)...)
 				if err != nil {
 					return made{}, err
 				}
